@@ -32,8 +32,10 @@ type Config struct {
 	Shared   int    `json:"shared"`
 	Size     int    `json:"size"`
 	Procs    int    `json:"procs"`
-	ColdOpen bool   `json:"cold"`   // reopen the cache before the run so that shared bugs are not loaded
-	Rounds   int    `json:"rounds"` // rounds of concurrent calls with a barrier (and a consistency check) in between; 0 = 1
+	ColdOpen bool   `json:"cold"`    // reopen the cache before the run so that shared bugs are not loaded
+	Rounds   int    `json:"rounds"`  // rounds of concurrent calls with a barrier (and a consistency check) in between; 0 = 1
+	Readers  int    `json:"readers"` // goroutines that only ask (listings, queries, lookups), in a loop, for as long as the others work
+	Filler   int    `json:"filler"`  // bugs nobody edits: they make the listings long
 }
 
 type Ack struct {
@@ -130,6 +132,12 @@ func one(cfg Config) *Result {
 		bugIds = append(bugIds, id)
 		bugNo[id] = len(bugIds)
 		return len(bugIds)
+	}
+	for i := 0; i < cfg.Filler; i++ {
+		b, op, err := c.Bugs().New(fmt.Sprintf("filler %d", i), "message")
+		hx.Must(err)
+		n := register(b.Id())
+		res.Acks = append(res.Acks, Ack{G: 0, Bug: n, Op: op.Id().String()})
 	}
 	for i := 0; i < cfg.Shared; i++ {
 		b, op, err := c.Bugs().New(fmt.Sprintf("shared %d", i), "message")
@@ -284,6 +292,45 @@ func one(cfg Config) *Result {
 		}
 		done := make(chan struct{})
 		go func() { wg.Wait(); close(done) }()
+		// readers: every way of asking, in a loop, until the workers of this round are done
+		var rwg sync.WaitGroup
+		for g := 0; g < cfg.Readers; g++ {
+			rwg.Add(1)
+			go func(g int) {
+				defer rwg.Done()
+				defer func() {
+					if p := recover(); p != nil {
+						mu.Lock()
+						res.Panics = append(res.Panics, fmt.Sprintf("reader %d: %v", g, p))
+						mu.Unlock()
+					}
+				}()
+				<-start
+				for k := 0; ; k++ {
+					select {
+					case <-done:
+						return
+					default:
+					}
+					switch (k + g) % 4 {
+					case 0:
+						for _, x := range c.Bugs().AllIds() {
+							_, _ = c.Bugs().ResolveExcerpt(x)
+						}
+					case 1:
+						_ = c.Identities().AllIds()
+						_ = c.Bugs().ValidLabels()
+					case 2:
+						q, _ := query.Parse("filler sort:edit")
+						_, _ = c.Bugs().Query(q)
+					case 3:
+						q, _ := query.Parse("status:open")
+						_, _ = c.Bugs().Query(q)
+					}
+					// (not counted as progress: the watchdog is about the calls that change something)
+				}
+			}(g)
+		}
 		close(start)
 		// a deadlock is the absence of progress, not slowness: no call completed anywhere for 15 seconds
 		last, idle := int64(-1), 0
@@ -302,6 +349,15 @@ func one(cfg Config) *Result {
 					stuck = true
 					break watch
 				}
+			}
+		}
+		if !stuck {
+			rdone := make(chan struct{})
+			go func() { rwg.Wait(); close(rdone) }()
+			select {
+			case <-rdone:
+			case <-time.After(20 * time.Second):
+				stuck = true // a reader that never comes back
 			}
 		}
 		if !stuck && rounds > 1 {
@@ -445,7 +501,7 @@ func Run(args []string) {
 	// hot spots: many workers on one or two shared bugs, no eviction, many short rounds
 	for i := 0; i < runs/4+1; i++ {
 		cfgs = append(cfgs, Config{Seed: seed*977 + uint64(i), Workers: []int{4, 8, 6}[i%3], Calls: 3 + i%3, Shared: 1 + i%2, Size: 1000,
-			Procs: []int{16, 8, 4}[i%3], ColdOpen: false, Rounds: 40})
+			Procs: []int{16, 8, 4}[i%3], ColdOpen: false, Rounds: 40, Readers: []int{0, 3, 2}[i%3], Filler: []int{0, 40, 25}[i%3]})
 	}
 	results := make([]*Result, len(cfgs))
 	hx.Parallel(len(cfgs), 4, func(i int) {
